@@ -1,5 +1,5 @@
 (** C15 — SetByUser is true exactly for values given on the command line. *)
-From MowCli Require Import Base Matchers Apply Values Cmd View ValueProofs AccountProofs UserProofs.
+From MowCli Require Import Base Matchers Apply Values Cmd View ValueProofs AccountProofs UserProofs ArgRangeProofs.
 
 (** For every declaration list, spec, environment and command line: after a successful parse of
     a command, the SetByUser flag of option (resp. argument) number k is true iff the accepting
@@ -68,6 +68,33 @@ Theorem C15_no_positional_no_arg_flag :
     Forall (fun c => ct_user c = false) args'.
 Proof. exact no_positional_no_arg_flag. Qed.
 Print Assumptions C15_no_positional_no_arg_flag.
+
+(** ... and conversely a positional token written on the line raises the flag of a DECLARED argument: every binding
+    [(KA k, v)] of an accepting run has [k] below the number of argument containers the parse returns ([ArgRangeProofs]:
+    the parser builds an argument leaf only from a name the argument table maps to an index, Thompson's construction,
+    the shortcut elimination and the sort keep the labels, the matcher of a transition [LArg k] binds to [KA k] only).
+    Together: some argument's flag is up iff the line has a positional token *)
+Theorem C15_bound_arguments_are_declared :
+  forall (parse_float : str -> option str) (getenv : str -> str)
+         (ds : list decl) (spec : str) (i : inited) (argv : list str) (opts' args' : list container)
+         (bs : list binding) (k : nat) (v : str),
+    do_init parse_float getenv ds spec = IOk i ->
+    fsm_parse parse_float i argv = PAccept opts' args' ->
+    fsm_apply (optinfo_of (i_opts i)) (i_graph i) (i_start i) argv = AOk bs ->
+    In (KA k, v) bs -> k < length args'.
+Proof. exact bound_arguments_are_declared. Qed.
+Print Assumptions C15_bound_arguments_are_declared.
+
+Theorem C15_some_arg_flag_iff_a_positional :
+  forall (parse_float : str -> option str) (getenv : str -> str)
+         (ds : list decl) (spec : str) (i : inited) (argv : list str) (opts' args' : list container) (u : list vs),
+    do_init parse_float getenv ds spec = IOk i ->
+    sane (optinfo_of (i_opts i)) = true -> no_dd_graph (i_graph i) = true ->
+    view (optinfo_of (i_opts i)) argv = Some u ->
+    fsm_parse parse_float i argv = PAccept opts' args' ->
+    ((exists k c, nth_error args' k = Some c /\ ct_user c = true) <-> poss u <> []).
+Proof. exact some_arg_flag_iff_a_positional. Qed.
+Print Assumptions C15_some_arg_flag_iff_a_positional.
 
 (** non-vacuity of the last one: "[-f] [X]" with X backed by the environment variable XV, line "-f": accepted, the line
     reads cleanly and has no positional; the argument holds the environment's value and its flag is down *)
